@@ -109,7 +109,19 @@ pub fn interval_strategy(finite_max: f32) -> BoxedStrategy<(Fl, Fl)> {
             };
             (Fl(cl(lo)), Fl(cl(hi)))
         });
-    prop_oneof![9 => general, 1 => large_angle].boxed()
+    // both bounds straight from the special-value pool (finite ones), sorted:
+    // rounding boundaries, powers of two, extremes
+    let special = (gens::fl_special(), gens::fl_special(), 0u32..=3).prop_map(move |(a, b, widen)| {
+        let f = |v: f32| if v.is_finite() { v.clamp(-finite_max, finite_max) } else { 0.0 };
+        let (a, b) = (f(a.0), f(b.0));
+        let (lo, mut hi) = (a.min(b), a.max(b));
+        // sometimes only one special bound: [s, s + 1/4]
+        if widen == 0 {
+            hi = (lo + 0.25).min(finite_max);
+        }
+        (Fl(lo), Fl(hi.max(lo)))
+    });
+    prop_oneof![18 => general, 2 => large_angle, 1 => special].boxed()
 }
 
 pub fn sample_in(lo: f32, hi: f32, t: u16) -> f32 {
@@ -412,6 +424,23 @@ impl Prop for P {
                         .eval(&tape, &input(vf.vars()))
                         .map_err(|e| Fail::new("eval-error", format!("{e:?}")))?;
                     ensure!(out.len() == roots.len(), "output-len", "vm");
+                    let out = out.to_vec();
+                    check_backend(
+                        "vm", &b, &roots, &order, &out, &pts, &root_index, &input_iv,
+                        cx, &mut nontrivial,
+                    )?;
+                }
+                // interpreter with four registers: nearly every tape spills, so the
+                // interval interpreter's Load / Store are exercised
+                {
+                    type V4 = fidget_core::vm::GenericVmFunction<4>;
+                    let vf = V4::new(&b.ctx, &roots).unwrap();
+                    let tape = vf.interval_tape(Default::default());
+                    let mut ev = V4::new_interval_eval();
+                    let (out, _) = ev
+                        .eval(&tape, &input(vf.vars()))
+                        .map_err(|e| Fail::new("eval-error", format!("{e:?}")))?;
+                    ensure!(out.len() == roots.len(), "output-len", "vm4");
                     let out = out.to_vec();
                     check_backend(
                         "vm", &b, &roots, &order, &out, &pts, &root_index, &input_iv,
